@@ -137,8 +137,8 @@ Theorem C05_flow_KEKIdentifier_unpack : forall fuel cls view,
 Proof. exact flow_KEKIdentifier_unpack. Qed.
 Print Assumptions C05_flow_KEKIdentifier_unpack.
 Theorem C05_flow_RecipientInfo_unpack : forall fuel cls view,
-  value_of (run_mut MW fuel k_flow_RecipientInfo_unpack [cls; VO (OReader view)])
-  = (let* (k, _) := RecipientInfo_unpack view in Ok (VO (OKri k))).
+  run_mut MW fuel k_flow_RecipientInfo_unpack [cls; VO (OReader view)]
+  = (let* (k, rest) := RecipientInfo_unpack view in Ok (VO (OKri k), [cls; VO (OReader rest)])).
 Proof. exact flow_RecipientInfo_unpack. Qed.
 Print Assumptions C05_flow_RecipientInfo_unpack.
 Theorem C05_flow_EncryptedContentInfo_unpack : forall fuel cls view,
@@ -186,3 +186,46 @@ Theorem C05_flow_SIDDescriptor_get_target_sd : forall fuel sid,
   = (let* b := SecDesc.get_target_sd sid in Ok (VB b, [VO (OSidDesc sid)])).
 Proof. exact flow_SIDDescriptor_get_target_sd. Qed.
 Print Assumptions C05_flow_SIDDescriptor_get_target_sd.
+
+(* what callers of X.unpack(reader) continue with: the world's entry is the model's (value, reader afterwards) *)
+Theorem C05_flow_call_AlgorithmIdentifier_unpack : forall view,
+  cms_call_mut "AlgorithmIdentifier.unpack"%string [VO (OReader view)]
+  = Some (let* (a, rest) := AlgorithmIdentifier_unpack view in Ok (VO (OAlg a), [VO (OReader rest)])).
+Proof. exact call_mut_AlgorithmIdentifier_unpack. Qed.
+Print Assumptions C05_flow_call_AlgorithmIdentifier_unpack.
+Theorem C05_flow_call_OtherKeyAttribute_unpack : forall view h,
+  cms_call_mut "OtherKeyAttribute.unpack/header"%string [VO (OReader view); vopt_hdr h]
+  = Some (let* (a, rest) := OtherKeyAttribute_unpack view h in Ok (VO (OOka a), [VO (OReader rest); vopt_hdr h])).
+Proof. exact call_mut_OtherKeyAttribute_unpack. Qed.
+Print Assumptions C05_flow_call_OtherKeyAttribute_unpack.
+Theorem C05_flow_call_KEKIdentifier_unpack : forall view,
+  cms_call_mut "KEKIdentifier.unpack"%string [VO (OReader view)]
+  = Some (let* (k, rest) := KEKIdentifier_unpack view in Ok (VO (OKekId k), [VO (OReader rest)])).
+Proof. exact call_mut_KEKIdentifier_unpack. Qed.
+Print Assumptions C05_flow_call_KEKIdentifier_unpack.
+Theorem C05_flow_call_KEKRecipientInfo_unpack : forall view h,
+  cms_call_mut "KEKRecipientInfo.unpack/header"%string [VO (OReader view); vopt_hdr h]
+  = Some (let* (k, rest) := KEKRecipientInfo_unpack view h in Ok (VO (OKri k), [VO (OReader rest); vopt_hdr h])).
+Proof. exact call_mut_KEKRecipientInfo_unpack. Qed.
+Print Assumptions C05_flow_call_KEKRecipientInfo_unpack.
+Theorem C05_flow_call_EncryptedContentInfo_unpack : forall view,
+  cms_call_mut "EncryptedContentInfo.unpack"%string [VO (OReader view)]
+  = Some (let* (e, rest) := EncryptedContentInfo_unpack view in Ok (VO (OEci e), [VO (OReader rest)])).
+Proof. exact call_mut_EncryptedContentInfo_unpack. Qed.
+Print Assumptions C05_flow_call_EncryptedContentInfo_unpack.
+
+(* the hypotheses are satisfiable: the EnvelopedData inside the example blob of C05_hyps_example *)
+Definition ex_flow_ed : bytes :=
+  match (let* h := peek_header ex_blob in ContentInfo_unpack ex_blob (Some h)) with
+  | Ok ci => ci_content ci | Raise _ => [] end.
+Example C05_flow_ex_EnvelopedData :
+  wfb ex_flow_ed = true /\ (1000 <? List.length ex_flow_ed)%nat = true /\ (List.length ex_flow_ed <? 1478)%nat = true /\
+  match EnvelopedData_unpack ex_flow_ed with Ok e => List.length (ed_recipient_infos e) = 1%nat | Raise _ => False end.
+Proof. split; [|split; [|split]]; vm_compute; reflexivity. Qed.
+Example C05_flow_ex_tie :
+  value_of (run_mut MW 1478 k_flow_EnvelopedData_unpack [VN; VB ex_flow_ed])
+  = (let* e := EnvelopedData_unpack ex_flow_ed in Ok (VO (OEd e))).
+Proof.
+  destruct C05_flow_ex_EnvelopedData as (HW & _ & HL & _).
+  apply C05_flow_EnvelopedData_unpack_bytes; [exact HW|]. apply Nat.ltb_lt. exact HL.
+Qed.
